@@ -84,7 +84,7 @@ package implementation
 //@   ensures[expires-in-the-future] err == nil ==> stg(context).htlcExp[sendBlock.Hash] > context.now
 //@   ensures-local[hash-locked-as-requested] err == nil ==> stg(context).htlcHashLocked == store(old(stg(context).htlcHashLocked), sendBlock.Hash, param.HashLocked)
 //@   ensures[nothing-on-error] err != nil ==> stg(context).htlcAmt == old(stg(context).htlcAmt) && stg(context).htlcHas == old(stg(context).htlcHas)
-//@   modifies sendBlock.Data, MF:common/db.DB.htlc
+//@   modifies sendBlock.Data, MF:common/db.DB.htlc*
 
 // Reclaim: only the time-locked party (the depositor), only once the frontier time has reached the expiration; pays exactly
 // the recorded amount and token to the depositor and removes the entry.
@@ -178,14 +178,14 @@ package implementation
 //@   modifies nothing
 
 // Storage invariant of the pillar contract: an active entry holds exactly the registration collateral.
-//@ spec pillarsWellFormed(s db.DB) bool = forall n str :: s.pillarHas[n] && s.pillarRevoked[n] == 0 ==> s.pillarAmt[n] == val(constants.PillarStakeAmount)
+//@ spec pillarsWellFormed(s db.DB) bool = forall n string :: s.pillarHas[n] && s.pillarRevoked[n] == 0 ==> s.pillarAmt[n] == val(constants.PillarStakeAmount)
 
 // Revoke: only the owner, only an active pillar, only inside a revoke window; pays the collateral to the owner and marks the
 // entry revoked with zero collateral in the same call.
 //@ func RevokeMethod.ReceiveBlock(p, context, sendBlock) -> (descendants, err)
 //@   requires p != nil && sendBlock != nil && sendBlock.Amount != nil
 //@   requires[entries-wellformed] pillarsWellFormed(stg(context))
-//@   requires[clock] context.now > 0
+//@   requires[clock] context.now > 0 && (forall n string :: 0 <= stg(context).pillarReg[n] && stg(context).pillarReg[n] <= context.now)
 //@   ensures[one-payment] err == nil ==> len(descendants) == 1 && descendants[0] != nil && descendants[0].Amount != nil && descendants[0].Address == types.PillarContract && descendants[0].BlockType == nom.BlockTypeContractSend && descendants[0].TokenStandard == types.ZnnTokenStandard
 //@   ensures[nothing-on-error] err != nil ==> len(descendants) == 0 && stg(context).pillarAmt == old(stg(context).pillarAmt) && stg(context).pillarRevoked == old(stg(context).pillarRevoked)
 //@   ensures-local[active-entry-of-sender] err == nil ==> old(stg(context).pillarHas)[deref(name)] && old(stg(context).pillarRevoked)[deref(name)] == 0 && old(stg(context).pillarOwner)[deref(name)] == sendBlock.Address
@@ -193,7 +193,7 @@ package implementation
 //@   ensures-local[exact-amount] err == nil ==> val(descendants[0].Amount) == old(stg(context).pillarAmt)[deref(name)]
 //@   ensures-local[never-twice] err == nil ==> stg(context).pillarAmt == store(old(stg(context).pillarAmt), deref(name), 0) && stg(context).pillarRevoked[deref(name)] != 0
 //@   at-call PillarGetRevokeStatus assert[entry-and-clock] arg0.RegistrationTime == stg(context).pillarReg[arg0.Name] && timenano(arg1.Timestamp) / 1000000000 == context.now
-//@   modifies sendBlock.Data, MF:common/db.DB.pillar
+//@   modifies sendBlock.Data, MF:common/db.DB.pillar*
 
 // ---- sentinel collateral -----------------------------------------------------------------------------------------------------
 //@ func GetSentinelRevokeStatus(registrationTime, m) -> (status, remaining)
@@ -211,13 +211,13 @@ package implementation
 //@   ensures[entry-holds-received-znn] err == nil ==> stg(context).sentinelZnn == store(old(stg(context).sentinelZnn), sendBlock.Address, val(sendBlock.Amount)) && sendBlock.TokenStandard == types.ZnnTokenStandard
 //@   ensures[entry-holds-consumed-qsr] err == nil ==> stg(context).sentinelQsr == store(old(stg(context).sentinelQsr), sendBlock.Address, old(stg(context).qsrDep)[sendBlock.Address] - stg(context).qsrDep[sendBlock.Address])
 //@   ensures[nothing-on-error] err != nil ==> stg(context).sentinelZnn == old(stg(context).sentinelZnn) && stg(context).sentinelQsr == old(stg(context).sentinelQsr) && stg(context).qsrDep == old(stg(context).qsrDep)
-//@   modifies sendBlock.Data, MF:common/db.DB.sentinel, MF:common/db.DB.qsrDep
+//@   modifies sendBlock.Data, MF:common/db.DB.sentinel*, MF:common/db.DB.qsrDep
 
 // Revoke: only the owner's own, not yet revoked entry, only inside a revoke window; pays exactly the recorded ZNN and QSR to
 // the owner and zeroes both in the same call.
 //@ func RevokeSentinelMethod.ReceiveBlock(method, context, sendBlock) -> (descendants, err)
 //@   requires method != nil && sendBlock != nil && sendBlock.Amount != nil
-//@   requires[clock] context.now > 0
+//@   requires[clock] context.now > 0 && 0 <= stg(context).sentinelReg[sendBlock.Address] && stg(context).sentinelReg[sendBlock.Address] <= context.now
 //@   ensures[two-payments] err == nil ==> len(descendants) == 2 && descendants[0] != nil && descendants[0].Amount != nil && descendants[1] != nil && descendants[1].Amount != nil
 //@   ensures[to-the-owner] err == nil ==> descendants[0].ToAddress == sendBlock.Address && descendants[1].ToAddress == sendBlock.Address
 //@   ensures[exact-amounts] err == nil ==> descendants[0].TokenStandard == types.ZnnTokenStandard && val(descendants[0].Amount) == old(stg(context).sentinelZnn)[sendBlock.Address] && descendants[1].TokenStandard == types.QsrTokenStandard && val(descendants[1].Amount) == old(stg(context).sentinelQsr)[sendBlock.Address]
@@ -225,4 +225,27 @@ package implementation
 //@   ensures[never-twice] err == nil ==> stg(context).sentinelZnn == store(old(stg(context).sentinelZnn), sendBlock.Address, 0) && stg(context).sentinelQsr == store(old(stg(context).sentinelQsr), sendBlock.Address, 0) && stg(context).sentinelRevoked[sendBlock.Address] != 0
 //@   ensures[nothing-on-error] err != nil ==> len(descendants) == 0 && stg(context).sentinelZnn == old(stg(context).sentinelZnn) && stg(context).sentinelQsr == old(stg(context).sentinelQsr)
 //@   at-call GetSentinelRevokeStatus assert[entry-and-clock] arg0 == stg(context).sentinelReg[sendBlock.Address] && timenano(arg1.Timestamp) / 1000000000 == context.now
-//@   modifies sendBlock.Data, MF:common/db.DB.sentinel
+//@   modifies sendBlock.Data, MF:common/db.DB.sentinel*
+
+// Registration of a pillar entry: never over an existing name; the entry is owned by the registering account, active, stamped
+// with the frontier time and holds exactly the registration collateral (this is what keeps pillarsWellFormed).
+//@ func checkAndRegisterPillar(context, param, ownerAddress, pillarType) -> (err)
+//@   requires param != nil
+//@   ensures[never-over-an-existing-name] err == nil ==> !old(stg(context).pillarHas)[param.Name]
+//@   ensures[owned-by-registrant] err == nil ==> stg(context).pillarOwner == store(old(stg(context).pillarOwner), param.Name, ownerAddress)
+//@   ensures[holds-the-collateral] err == nil ==> stg(context).pillarAmt == store(old(stg(context).pillarAmt), param.Name, val(constants.PillarStakeAmount)) && stg(context).pillarRevoked == store(old(stg(context).pillarRevoked), param.Name, 0)
+//@   ensures[stamped-now] err == nil ==> stg(context).pillarReg == store(old(stg(context).pillarReg), param.Name, context.now)
+//@   ensures[nothing-on-error] err != nil ==> stg(context).pillarAmt == old(stg(context).pillarAmt) && stg(context).pillarOwner == old(stg(context).pillarOwner) && stg(context).pillarHas == old(stg(context).pillarHas)
+//@   modifies MF:common/db.DB.pillar*
+
+// Register: the received ZNN is exactly the collateral the entry records; the QSR price is taken from the registrant's own
+// deposit and exactly that amount is sent to the token contract to be burned.
+//@ func RegisterMethod.ReceiveBlock(p, context, sendBlock) -> (descendants, err)
+//@   requires p != nil && sendBlock != nil && sendBlock.Amount != nil
+//@   requires[entries-wellformed] pillarsWellFormed(stg(context))
+//@   ensures[collateral-received] err == nil ==> sendBlock.TokenStandard == types.ZnnTokenStandard && val(sendBlock.Amount) == val(constants.PillarStakeAmount)
+//@   ensures[burn-equals-consumed-deposit] err == nil ==> len(descendants) == 1 && descendants[0] != nil && descendants[0].Amount != nil && descendants[0].ToAddress == types.TokenContract && descendants[0].TokenStandard == types.QsrTokenStandard && val(descendants[0].Amount) == old(stg(context).qsrDep)[sendBlock.Address] - stg(context).qsrDep[sendBlock.Address]
+//@   ensures[only-own-deposit] err == nil ==> (forall a arr :: a != sendBlock.Address ==> stg(context).qsrDep[a] == old(stg(context).qsrDep)[a])
+//@   ensures[keeps-entries-wellformed] err == nil ==> pillarsWellFormed(stg(context))
+//@   ensures[no-payment-on-error] err != nil ==> len(descendants) == 0
+//@   modifies sendBlock.Data, MF:common/db.DB.pillar*, MF:common/db.DB.qsrDep
